@@ -846,7 +846,6 @@ func EmitSites(p *Prog) []EmitSite {
 	return out
 }
 
-
 // Effective returns the values a slot may hold at the sink: values that
 // are overwritten by a later update dominating the sink are dropped.
 func (e *EventSlots) Effective(slot string) []SlotVal {
